@@ -34,6 +34,7 @@ class C11(C06.C06):
             "histories": gen_acl.histories(rng, 250 if q else 6000, t, 50, "h"),
             "files": gen_acl.file_histories(rng, 120 if q else 3000, t, 40, "f"),
             "malformed": gen_acl.histories(rng, 100 if q else 3000, t, 30, "m", malformed=True),
+            "lifecycle": [gen_acl.lifecycle(rng, "l%d" % i, t, i) for i in range(30 if q else 420)],
         }
 
     def spec_compare(self, script, impl_lines, spec_lines):
